@@ -262,7 +262,12 @@ struct Runner {
             if (op == "w") { const std::string& c = chunks.at(st["c"].get<int>()); guarded("w", [&] { wr->write(c.data(), c.size()); }); }
             else if (op == "rec") {
                 for (unsigned i = 0; i < st["n"].get<unsigned>() && !(block_exc && has_recover); i++) {
-                    unsigned r = rec++; guarded_block("rec", [&] { ex->buffer_qr(mk_rec(r)); });
+                    unsigned r = rec++;
+                    GenericQueryResponse g = mk_rec(r);
+                    // "big": every big-th record carries a name larger than the encoder's staging buffer (large RDATA, payloads)
+                    unsigned big = st.value("big", 0u);
+                    if (big && r % big == big - 1) g.query_name = std::string(3000 + r % 7, static_cast<char>('A' + r % 26));
+                    guarded_block("rec", [&] { ex->buffer_qr(g); });
                 }
             }
             else if (op == "wb") guarded_block("wb", [&] { ex->write_block(); });
